@@ -298,3 +298,472 @@ Proof.
       * left. unfold mstep. cbv zeta. rewrite Hpc, Sn, El. eexists. reflexivity.
       * right. apply (Other e2); [rewrite ?Sn; right; left; reflexivity | exact El | exact Hlp].
 Qed.
+
+(* ================================================================== no lost wake-up for a parked synchronous caller:
+   as long as it is not signalled, its context is still queued / popped / running on the bound thread, or the bound
+   thread is about to signal it; and if it sleeps after the signal, the futex_wake is the bound thread's next step *)
+Lemma gstep_lst_same l t l' :
+  gstep l t = Some l' -> lane_ok MIdle (pcs l t) = true -> token_pc (pcs l t) = false -> lst l' = lst l.
+Proof.
+  intros B Hk Ht. unfold gstep in B. destruct (pcs l t) eqn:Hpc; try discriminate; cbn [lane_ok] in Hk; try discriminate Hk;
+    cbn [token_pc locked_pc orb] in Ht; try discriminate Ht; break_step B; injection B as <-; lproj;
+    repeat match goal with H : lst l = _ |- _ => rewrite H; clear H end; reflexivity.
+Qed.
+
+Definition NM (s : mst) : Prop := ~ In (mtid s) (syncers s).
+
+Lemma NM_step s a s' : NM s -> mstep_rel s a s' -> NM s'.
+Proof.
+  intros H St. destruct a as [t c|t|t|t]; destruct St as [V B].
+  - unfold mbegin in B. destruct (pcs (lane s) t); try discriminate B.
+    destruct c.
+    2: { destruct (mpcs s t); try discriminate B.
+         destruct (qos_ok q && negb (t =? mtid s) && negb (mainstarted s)) eqn:C; [|discriminate B].
+         apply some_inj in B; rewrite <- B; unfold NM; mproj; intros [E|E]; [|exact (H E)].
+         apply andb_true_iff in C as [C _]; apply andb_true_iff in C as [_ C]; apply negb_true_iff in C; apply Z.eqb_neq in C; congruence. }
+    all: try (destruct (begin (lane s) t (CWorker floor)) eqn:BG); destruct (mpcs s t); brk B; try discriminate B;
+      apply some_inj in B; rewrite <- B; unfold NM, callback; mproj;
+      repeat match goal with |- context [if ?x then _ else _] => destruct x end; mproj; exact H.
+  - unfold mstep, lane_step in B. destruct (gstep (lane s) t) eqn:GS; destruct (mpcs s t); brk B; try discriminate B;
+      apply some_inj in B; rewrite <- B; unfold NM; mproj;
+      repeat match goal with |- context [if ?x then _ else _] => destruct x end; mproj; try exact H.
+    all: rewrite in_remove_z; intros [E _]; exact (H E).
+  - unfold mostep, lane_step in B. destruct (gstep (lane s) t) eqn:GS; destruct (ostep (lane s) t) eqn:OS; destruct (mpcs s t); brk B;
+      try discriminate B; apply some_inj in B; rewrite <- B; exact H.
+  - unfold mspur in B. destruct (mpcs s t); try discriminate B. injection B as <-. exact H.
+Qed.
+
+
+Definition witem (c : mcls) : list Z := match c_view c with VRun i _ | VIn i _ => [i] | _ => [] end.
+Definition pset (s : mst) : list Z := witem (mcl s) ++ ids (snap s) ++ ids (lst (lane s)).
+
+Definition PW (s : mst) (t : Z) : Prop :=
+  3 <= stage (mpcs s t) (pcs (lane s) t) <= 4 ->
+  (0 <= w_item (ws s t) < nextid (lane s) /\ waiter_of s (w_item (ws s t)) = t /\ t <> 0) /\
+  (w_sigd (ws s t) = false ->
+     (w_null (ws s t) = false -> In (w_item (ws s t)) (pset s)) /\ (w_null (ws s t) = true -> c_view (mcl s) = VSig t)) /\
+  (mpcs s t = MS_sleep -> w_wok (ws s t) = false -> w_sigd (ws s t) = true -> exists more, mpcs s (mtid s) = MB_fwake t more).
+
+Definition Inv3 (s : mst) : Prop := forall t, PW s t.
+
+Definition wsame (a b : wst) : Prop :=
+  w_item a = w_item b /\ w_sigd a = w_sigd b /\ w_null a = w_null b /\ w_wok a = w_wok b.
+
+Lemma PW_frame s s' u :
+  PW s u ->
+  (3 <= stage (mpcs s' u) (pcs (lane s') u) <= 4 -> 3 <= stage (mpcs s u) (pcs (lane s) u) <= 4) ->
+  (mpcs s' u = MS_sleep -> mpcs s u = MS_sleep) ->
+  wsame (ws s' u) (ws s u) -> mtid s' = mtid s ->
+  (forall i, 0 <= i < nextid (lane s) -> waiter_of s' i = waiter_of s i) ->
+  nextid (lane s) <= nextid (lane s') ->
+  (waiter_of s (w_item (ws s u)) = u -> u <> 0 -> In (w_item (ws s u)) (pset s) -> In (w_item (ws s u)) (pset s')) ->
+  (c_view (mcl s) = VSig u -> c_view (mcl s') = VSig u) ->
+  (forall more, mpcs s (mtid s) = MB_fwake u more -> mpcs s' (mtid s) = MB_fwake u more) ->
+  PW s' u.
+Proof.
+  intros H E1 E2 (W1 & W2 & W3 & W4) E4 Ew Hn Hi Hv Hf. unfold PW in *. rewrite W1, W2, W3, W4, E4. intros Hs.
+  destruct (H (E1 Hs)) as ((A0 & A & A1) & B & C). split; [split; [lia | split; [rewrite (Ew _ A0); exact A | exact A1]]|]. split.
+  - intros Sg. destruct (B Sg) as [B1 B2]. split; [intros Nl; apply (Hi A A1); apply B1; exact Nl | intros Nl; apply Hv; apply B2; exact Nl].
+  - intros P1 P2 P3. destruct (C (E2 P1) P2 P3) as [more Hm]. exists more. apply Hf. exact Hm.
+Qed.
+
+Lemma PW_lane_phase s u : Inv s -> c_lane (mcl s) = true -> PW s u.
+Proof.
+  intros (T & _ & _ & G) CL Hs. exfalso. rewrite CL in G. destruct G as [_ G2].
+  destruct (T u) as (_ & _ & _ & _ & T5 & _). assert (sync_pc (mpcs s u) = true) by (apply (stage_sync _ (pcs (lane s) u)); lia).
+  apply T5 in H. rewrite (b_sync s G2) in H. contradiction.
+Qed.
+
+Lemma PW_clean_phase s u : Inv s -> c_lane (mcl s) = false -> c_clean (mcl s) = true -> PW s u.
+Proof.
+  intros (T & _ & _ & G) CL CC Hs. exfalso. rewrite CL in G. destruct G as [r G].
+  destruct (T u) as (_ & _ & _ & _ & T5 & _). assert (sync_pc (mpcs s u) = true) by (apply (stage_sync _ (pcs (lane s) u)); lia).
+  apply T5 in H. rewrite (a_nosync s r G CC) in H. contradiction.
+Qed.
+
+Lemma pset_same s s' : c_view (mcl s') = c_view (mcl s) -> snap s' = snap s -> lst (lane s') = lst (lane s) -> incl (pset s) (pset s').
+Proof. intros E1 E2 E3. unfold pset, witem. rewrite E1, E2, E3. apply incl_refl. Qed.
+
+Ltac dmatch :=
+  repeat match goal with
+         | |- context [if ?x then _ else _] => destruct x
+         | |- context [match ?k with KRet => _ | KWait => _ | KDrain => _ end] => destruct k
+         | |- context [match ?l with nil => _ | cons _ _ => _ end] => destruct l
+         end.
+
+Ltac absurd_neq := try (exfalso; match goal with H : ?x <> ?x |- _ => exact (H eq_refl) end).
+
+(* the bound thread's view is unchanged by the step of thread t from the program point in Hpc *)
+Ltac view_eq s t Hpc Ev :=
+  match goal with
+  | |- PW ?s1 _ =>
+      assert (Ev : c_view (mcl s1) = c_view (mcl s)) by
+        (unfold mcl; mproj;
+         let E := fresh "E" in
+         destruct (Z.eq_dec t (mtid s)) as [E|E];
+         [ rewrite <- E, ?upd_same, ?Hpc; dmatch; reflexivity
+         | rewrite ?upd_other by congruence; reflexivity ])
+  end.
+
+(* a step of thread t that keeps the lists, the contexts' flags and the bound thread's view *)
+Ltac generic H3 s u t Hpc :=
+  let Ev := fresh "Ev" in
+  view_eq s t Hpc Ev;
+  apply (PW_frame s _ u (H3 u));
+  [ mproj; lproj; let N := fresh "N" in destruct (Z.eq_dec u t) as [->|N];
+    [ absurd_neq; rewrite ?upd_same, ?Hpc; dmatch; cbn [stage kont]; dmatch; lia | rewrite ?upd_other by exact N; tauto ]
+  | mproj; let N := fresh "N" in destruct (Z.eq_dec u t) as [->|N];
+    [ absurd_neq; rewrite ?upd_same, ?Hpc; dmatch; try discriminate; tauto | rewrite ?upd_other by exact N; tauto ]
+  | mproj; let N := fresh "N" in destruct (Z.eq_dec u t) as [->|N];
+    [ absurd_neq; rewrite ?upd_same; repeat split | rewrite ?upd_other by exact N; repeat split ]
+  | reflexivity
+  | intros; mproj; reflexivity
+  | mproj; lproj; lia
+  | intros _ _; apply pset_same; [exact Ev | mproj; reflexivity | mproj; lproj; reflexivity]
+  | rewrite Ev; tauto
+  | let more := fresh "more" in let Hm := fresh "Hm" in let E := fresh "E" in
+    intros more Hm; mproj;
+    destruct (Z.eq_dec t (mtid s)) as [E|E]; [rewrite <- E, Hpc in Hm; discriminate Hm | rewrite upd_other by congruence; exact Hm] ].
+
+(* thread t itself is not (or no longer) waiting after the step *)
+Ltac vacuous :=
+  let Hs := fresh "Hs" in
+  intros Hs; exfalso; revert Hs; mproj; lproj; rewrite ?upd_same; cbn [stage kont]; dmatch; lia.
+
+
+(* a private move of the bound thread t = mtid s: everything but the pending set and the view is framed *)
+Ltac bframe H3 s u t Hpc Et :=
+  apply (PW_frame s _ u (H3 u));
+  [ mproj; lproj; let N := fresh "N" in destruct (Z.eq_dec u t) as [->|N];
+    [ absurd_neq; rewrite ?upd_same, ?Hpc; dmatch; cbn [stage kont]; dmatch; lia | rewrite ?upd_other by exact N; tauto ]
+  | mproj; let N := fresh "N" in destruct (Z.eq_dec u t) as [->|N];
+    [ absurd_neq; rewrite ?upd_same, ?Hpc; dmatch; try discriminate; tauto | rewrite ?upd_other by exact N; tauto ]
+  | mproj
+  | reflexivity
+  | intros; mproj; reflexivity
+  | mproj; lproj; lia
+  | idtac
+  | idtac
+  | idtac ].
+Ltac unf_mcl Et Hpc := unfold pset, witem, mcl; mproj; rewrite <- ?Et, ?upd_same, ?Hpc; cbn [mclass c_view kont].
+Ltac unf_mcl_in Et Hpc H := unfold pset, witem, mcl in H; mproj_in H; rewrite <- ?Et, ?upd_same, ?Hpc in H; cbn [mclass c_view kont] in H.
+
+Lemma parked_not_main s w i : Inv s -> NM s -> parked s w i -> w <> mtid s.
+Proof.
+  intros (T & _) Hn P E. apply Hn. rewrite <- E. destruct (T w) as (_ & _ & _ & _ & T5 & _). apply T5. exact (parked_sync s w i P).
+Qed.
+
+Lemma Inv3_mstep s t s' : Inv s -> Inv s' -> Inv3 s -> NM s -> valid_tid t -> mstep s t = Some s' -> Inv3 s'.
+Proof.
+  intros I I' H3 Hn V B u.
+  destruct (c_lane (mcl s')) eqn:CL'; [apply PW_lane_phase; assumption|].
+  destruct (c_clean (mcl s')) eqn:CC'; [apply PW_clean_phase; assumption|].
+  pose proof I as (T & Y & Vm & G). destruct (T t) as (T1 & T2 & T3 & T4 & T5 & T6).
+  unfold mstep, lane_step in B. destruct (mpcs s t) eqn:Hpc.
+  all: cbv beta iota zeta in B.
+  all: try (match type of B with context [gstep] => fail 1 | _ => idtac end; brk B; try discriminate B; apply some_inj in B; rewrite <- B;
+            dmatch; generic H3 s u t Hpc; fail).
+  - (* ordinary lane code *)
+    destruct (gstep (lane s) t) as [l'|] eqn:GS; [|discriminate]. apply some_inj in B. subst s'.
+    destruct (gstep_facts _ _ _ GS T2) as (F1 & F2 & F3 & F4).
+    assert (CLs : c_lane (mcl s) = false) by exact CL'. rewrite CLs in G. destruct G as [r G].
+    assert (NT : token_pc (pcs (lane s) t) = false).
+    { destruct (token_pc (pcs (lane s) t)) eqn:E; [|reflexivity]. destruct T1 as (Tt & _). apply Tt in E. rewrite (a_token s r G) in E. discriminate. }
+    pose proof (gstep_lst_same _ _ _ GS T2 NT) as EL.
+    apply (PW_frame s _ u (H3 u)); mproj.
+    + destruct (Z.eq_dec u t) as [->|N]; [rewrite Hpc; cbn [stage kont]; lia | rewrite (F3 u N); tauto].
+    + tauto.
+    + repeat split.
+    + reflexivity.
+    + intros; reflexivity.
+    + lia.
+    + intros _ _. apply pset_same; [reflexivity | reflexivity | exact EL].
+    + tauto.
+    + intros more Hm; exact Hm.
+  - (* the push *)
+    cbn [lane_ok] in T2.
+    destruct (pcs (lane s) t) eqn:Hlp; try discriminate T2; unfold gstep in B; rewrite Hlp in B; apply some_inj in B; subst s'.
+    + (* exchange: a synchronous caller's context becomes pending *)
+      destruct (Z.eq_dec u t) as [->|N].
+      * destruct k.
+        -- intros Hs. exfalso. revert Hs. mproj. rewrite Hpc. cbn [stage kont]. lia.
+        -- assert (CLs : c_lane (mcl s) = false) by exact CL'. rewrite CLs in G. destruct G as [r G].
+           destruct T6 as (S2 & _). rewrite Hpc, Hlp in S2. cbn [stage] in S2. destruct (S2 eq_refl) as (_ & S22 & S23).
+           intros _. mproj. lproj. rewrite !upd_same. cbn [w_item w_sigd w_null w_wok wset_item]. rewrite Hpc.
+           split; [split; [pose proof (a_nextid s r G); lia | split; [reflexivity | unfold valid_tid in V; lia]]|]. split.
+           ++ intros _. split; [intros _ | intros E; congruence].
+              unfold pset. mproj. lproj. apply in_or_app. right. apply in_or_app. right. unfold ids. rewrite map_app. apply in_or_app. right. left. reflexivity.
+           ++ intros E; discriminate E.
+        -- intros Hs. exfalso. revert Hs. mproj. rewrite Hpc. cbn [stage kont]. lia.
+      * apply (PW_frame s _ u (H3 u)); mproj; lproj; rewrite ?upd_other by exact N.
+        -- tauto.
+        -- tauto.
+        -- repeat split.
+        -- reflexivity.
+        -- intros i0 Hi0. rewrite upd_other by lia. reflexivity.
+        -- lia.
+        -- intros _ _. unfold pset. apply incl_app_app; [apply incl_refl|]. apply incl_app_app; [apply incl_refl|]. mproj. lproj.
+           unfold ids. rewrite map_app. apply incl_appl. apply incl_refl.
+        -- tauto.
+        -- intros more Hm; exact Hm.
+    + (* link *)
+      assert (Ev : c_view (mcl (set_mpc (set_snap (set_lane s (set_pc (set_lst (lane s) (link_id (lst (lane s)) i)) t (if was_empty then PA_probe qos else Idle))) (link_id (snap s) i)) t (if was_empty then MW_bound qos true k else MW_ret k))) = c_view (mcl s)).
+      { unfold mcl; mproj. destruct (Z.eq_dec t (mtid s)) as [E|E];
+        [ rewrite <- E, ?upd_same, ?Hpc; dmatch; reflexivity | rewrite ?upd_other by congruence; reflexivity ]. }
+      apply (PW_frame s _ u (H3 u)).
+      * mproj; lproj; destruct (Z.eq_dec u t) as [->|N];
+          [ rewrite ?upd_same, ?Hpc, ?Hlp; dmatch; cbn [stage kont]; dmatch; lia | rewrite ?upd_other by exact N; tauto ].
+      * mproj; destruct (Z.eq_dec u t) as [->|N];
+          [ rewrite ?upd_same, ?Hpc; dmatch; try discriminate; tauto | rewrite ?upd_other by exact N; tauto ].
+      * mproj. repeat split.
+      * reflexivity.
+      * intros; mproj; reflexivity.
+      * mproj; lproj; lia.
+      * intros _ _. unfold pset, witem. rewrite Ev. mproj. lproj. unfold ids. rewrite !map_id_link. tauto.
+      * rewrite Ev; tauto.
+      * intros more Hm; mproj. destruct (Z.eq_dec t (mtid s)) as [E|E]; [rewrite <- E, Hpc in Hm; discriminate Hm | rewrite upd_other by congruence; exact Hm].
+  - (* MS_prep: the context is set up *)
+    brk B; try discriminate B; apply some_inj in B; subst s'.
+    destruct (Z.eq_dec u t) as [->|N]; [vacuous | generic H3 s u t Hpc].
+  - (* MS_futex: going to sleep only while the event still holds the waiting value, i.e. not signalled *)
+    destruct (w_dte (ws s t) =? MAXV) eqn:Ed; apply some_inj in B; subst s'; [|generic H3 s u t Hpc].
+    destruct (Z.eq_dec u t) as [->|N]; [|generic H3 s u t Hpc].
+    apply Z.eqb_eq in Ed. destruct T6 as (_ & _ & S4 & _). rewrite Hpc in S4. cbn [stage] in S4. specialize (S4 eq_refl).
+    pose proof (H3 t) as P. unfold PW in P. rewrite Hpc in P. cbn [stage] in P. destruct (P ltac:(lia)) as (A & B0 & _).
+    view_eq s t Hpc Ev.
+    intros _. unfold pset, witem in *. rewrite Ev. mproj. rewrite !upd_same. cbn [w_item w_sigd w_null w_wok wset_wok]. split; [exact A|]. split; [exact B0|].
+    intros _ _ Sg. exfalso. rewrite Sg, Ed in S4. unfold MAXV in S4. discriminate S4.
+  - (* MB_snap: the list moves into the snapshot *)
+    apply some_inj in B; subst s'.
+    assert (Et : t = mtid s) by (apply T3; reflexivity).
+    assert (CLs : c_lane (mcl s) = false). { unfold mcl. rewrite <- Et, Hpc. reflexivity. }
+    rewrite CLs in G. destruct G as [r G].
+    assert (Sn : snap s = []).
+    { pose proof (a_snap s r G) as AS. unfold mcl in AS. rewrite <- Et, Hpc in AS.
+      destruct (snap s); [reflexivity | discriminate AS]. }
+    assert (Ev : c_view (mcl (set_mpc (set_snap (set_lane s (set_lst (lane s) [])) (lst (lane s))) t MB_next)) = c_view (mcl s)).
+    { unfold mcl; mproj. rewrite <- Et, upd_same, Hpc. reflexivity. }
+    apply (PW_frame s _ u (H3 u)).
+    + mproj; lproj; destruct (Z.eq_dec u t) as [->|N]; [rewrite ?upd_same, ?Hpc; cbn [stage kont]; lia | rewrite ?upd_other by exact N; tauto].
+    + mproj; destruct (Z.eq_dec u t) as [->|N]; [rewrite ?upd_same; discriminate | rewrite ?upd_other by exact N; tauto].
+    + mproj. repeat split.
+    + reflexivity.
+    + intros; mproj; reflexivity.
+    + mproj; lproj; lia.
+    + intros _ _. unfold pset, witem. rewrite Ev. mproj. lproj. rewrite Sn. cbn [ids map app]. rewrite app_nil_r. tauto.
+    + rewrite Ev; tauto.
+    + intros more Hm. rewrite <- Et, Hpc in Hm. discriminate Hm.
+  - (* MB_next: the head of the snapshot is taken *)
+    assert (Et : t = mtid s) by (apply T3; reflexivity).
+    destruct (snap s) as [|e [|e2 r']] eqn:Sn; try discriminate B.
+    + apply some_inj in B; subst s'. bframe H3 s u t Hpc Et.
+      * repeat split.
+      * intros _ _. unf_mcl Et Hpc. rewrite Sn. cbn [ids map app]. tauto.
+      * unf_mcl Et Hpc. discriminate.
+      * intros more0 Hm. rewrite <- Et, Hpc in Hm. discriminate Hm.
+    + destruct (e_linked e2); [|discriminate B]. apply some_inj in B; subst s'. bframe H3 s u t Hpc Et.
+      * repeat split.
+      * intros _ _. unf_mcl Et Hpc. rewrite Sn. cbn [ids map app]. tauto.
+      * unf_mcl Et Hpc. discriminate.
+      * intros more0 Hm. rewrite <- Et, Hpc in Hm. discriminate Hm.
+  - (* MB_run: the callout begins *)
+    assert (Et : t = mtid s) by (apply T3; reflexivity).
+    apply some_inj in B; subst s'. bframe H3 s u t Hpc Et.
+    + repeat split.
+    + intros _ _. unf_mcl Et Hpc. lproj. tauto.
+    + unf_mcl Et Hpc. discriminate.
+    + intros more0 Hm. rewrite <- Et, Hpc in Hm. discriminate Hm.
+  - (* MB_incall: the callout ends; a synchronous caller's context is marked as run *)
+    assert (Et : t = mtid s) by (apply T3; reflexivity).
+    assert (Ev : c_view (mcl s) = VIn i w) by (unfold mcl; rewrite <- Et, Hpc; reflexivity).
+    destruct (y_run s Y i w (or_intror Ev)) as (Ew & Pk).
+    destruct (w =? 0) eqn:Ew0; apply some_inj in B; subst s'.
+    + apply Z.eqb_eq in Ew0. bframe H3 s u t Hpc Et.
+      * repeat split.
+      * intros Hw Hu. unf_mcl Et Hpc. lproj. cbn [app]. intros [Hi|Hi]; [|exact Hi]. exfalso. rewrite <- Hi in Hw. lia.
+      * unf_mcl Et Hpc. discriminate.
+      * intros more0 Hm. rewrite <- Et, Hpc in Hm. discriminate Hm.
+    + apply Z.eqb_neq in Ew0. destruct (Pk Ew0) as (Pk1 & Pk2).
+      pose proof (parked_not_main s w i I Hn Pk1) as Nw. destruct Pk1 as (Pa & Pb & Pc).
+      destruct (Z.eq_dec u w) as [->|Nu].
+      * pose proof (H3 w) as P. unfold PW in P. destruct (P Pa) as (A & _ & _).
+        intros _. unf_mcl Et Hpc. lproj. rewrite ?upd_same. cbn [w_item w_sigd w_null w_wok wset_null].
+        split; [exact A|]. split.
+        -- intros _. split; [discriminate | reflexivity].
+        -- intros _ _ Sg. congruence.
+      * bframe H3 s u t Hpc Et.
+        -- rewrite upd_other by exact Nu. repeat split.
+        -- intros Hw Hu. unf_mcl Et Hpc. lproj. cbn [app]. intros [Hi|Hi]; [|exact Hi]. exfalso. rewrite <- Hi in Hw. congruence.
+        -- unf_mcl Et Hpc. discriminate.
+        -- intros more0 Hm. rewrite <- Et, Hpc in Hm. discriminate Hm.
+  - (* MB_sig: the event is signalled; a sleeping caller is woken by the very next step *)
+    assert (Et : t = mtid s) by (apply T3; reflexivity).
+    assert (Ev : c_view (mcl s) = VSig w) by (unfold mcl; rewrite <- Et, Hpc; reflexivity).
+    destruct (y_sig s Y w Ev) as (Pk1 & Pk2 & _).
+    pose proof (parked_not_main s w _ I Hn Pk1) as Nw. destruct Pk1 as (Pa & _ & Pc).
+    apply some_inj in B; subst s'.
+    destruct (Z.eq_dec u w) as [->|Nu].
+    + pose proof (H3 w) as P. unfold PW in P. destruct (P Pa) as (A & _ & _).
+      destruct (T w) as (_ & _ & _ & _ & _ & (_ & _ & S4 & _)).
+      intros _. mproj. rewrite <- ?Et, ?upd_same. rewrite ?upd_other by congruence.
+      cbn [w_item w_sigd w_null w_wok wset_sigd wset_dte].
+      split; [exact A|]. split; [discriminate|].
+      intros Sl _ _. rewrite Sl in S4. cbn [stage] in S4. specialize (S4 eq_refl). rewrite Pc in S4.
+      rewrite S4. assert (Em : (MAXV =? 0) = false) by reflexivity. rewrite Em. exists more. reflexivity.
+    + bframe H3 s u t Hpc Et.
+      * rewrite upd_other by exact Nu. repeat split.
+      * intros _ _. unf_mcl Et Hpc. dmatch; cbn [mclass c_view kont]; tauto.
+      * intros Eu. exfalso. rewrite Ev in Eu. congruence.
+      * intros more0 Hm. rewrite <- Et, Hpc in Hm. discriminate Hm.
+  - (* MB_fwake: futex_wake *)
+    assert (Et : t = mtid s) by (apply T3; reflexivity).
+    apply some_inj in B; subst s'.
+    destruct (Z.eq_dec u t) as [->|Nt]; [vacuous|].
+    destruct (Z.eq_dec u w) as [->|Nu].
+    + pose proof (H3 w) as P. unfold PW in P.
+      intros Hs. revert Hs. unf_mcl Et Hpc. rewrite ?upd_same. rewrite ?upd_other by congruence.
+      cbn [w_item w_sigd w_null w_wok wset_wok]. intros Hs. destruct (P Hs) as (A & B0 & _).
+      split; [exact A|]. split.
+      * intros Sg. destruct (B0 Sg) as [B1 B2]. split; [intros Nl; apply B1 in Nl; unf_mcl_in Et Hpc Nl; exact Nl|].
+        intros Nl. apply B2 in Nl. unf_mcl_in Et Hpc Nl. discriminate Nl.
+      * intros _ Wk. discriminate Wk.
+    + bframe H3 s u t Hpc Et.
+      * rewrite upd_other by exact Nu. repeat split.
+      * intros _ _. unf_mcl Et Hpc. tauto.
+      * unf_mcl Et Hpc. discriminate.
+      * intros more0 Hm. rewrite <- Et, Hpc in Hm. exfalso. congruence.
+  - (* MC_cbc: excluded, the class after the step belongs to dispatch_main() *)
+    assert (Et : t = mtid s) by (apply T3; reflexivity).
+    exfalso. brk B; try discriminate B; apply some_inj in B; subst s'.
+    all: revert CL' CC'; unfold mcl; mproj; rewrite <- ?Et, ?upd_same; cbn [mclass c_lane c_clean]; congruence.
+  - (* MC_push: excluded likewise *)
+    assert (Et : t = mtid s) by (apply T3; reflexivity).
+    exfalso. destruct (gstep (lane s) t) as [l'|]; [|discriminate B]. apply some_inj in B; subst s'.
+    revert CL'; unfold mcl; mproj; rewrite <- ?Et, ?upd_same; cbn [mclass c_lane c_clean]; congruence.
+Qed.
+
+Lemma Inv3_step s a s' : Inv s -> Inv s' -> Inv3 s -> NM s -> mstep_rel s a s' -> Inv3 s'.
+Proof.
+  intros I I' H3 Hn St. destruct a as [t c|t|t|t]; destruct St as [V B].
+  - (* a call begins *)
+    intros u.
+    destruct (c_lane (mcl s')) eqn:CL'; [apply PW_lane_phase; assumption|].
+    destruct (c_clean (mcl s')) eqn:CC'; [apply PW_clean_phase; assumption|].
+    pose proof I as (T & Y & Vm & G). destruct (T t) as (T1 & T2 & T3 & T4 & T5 & T6).
+    unfold mbegin in B. destruct (pcs (lane s) t) eqn:Hlp; try discriminate B.
+    destruct c.
+    + destruct (mpcs s t) eqn:Hpc; try discriminate B. destruct (qos_ok q); [|discriminate B].
+      apply some_inj in B; subst s'. generic H3 s u t Hpc.
+    + destruct (mpcs s t) eqn:Hpc; try discriminate B.
+      destruct (qos_ok q && negb (t =? mtid s) && negb (mainstarted s)); [|discriminate B].
+      apply some_inj in B; subst s'. destruct aaw; generic H3 s u t Hpc.
+    + destruct (mpcs s t) eqn:Hpc; try discriminate B;
+        (destruct ((t =? mtid s) && (0 <? evfd s) && hopen s) eqn:C; [|discriminate B]);
+        apply some_inj in B; subst s'; unfold callback in *; mproj; mproj_in CL'; mproj_in CC'.
+      * destruct (incb s); [exact (H3 u)|]. generic H3 s u t Hpc.
+      * assert (Et : t = mtid s) by (apply T3; reflexivity).
+        assert (CLs : c_lane (mcl s) = false) by (unfold mcl; rewrite <- Et, Hpc; reflexivity).
+        rewrite CLs in G. destruct G as [r G]. pose proof (a_incb s r G) as AI. unfold mcl in AI. rewrite <- Et, Hpc in AI.
+        cbn [mclass c_incb] in AI. rewrite AI. exact (H3 u).
+    + destruct (mpcs s t) eqn:Hpc; try discriminate B;
+        (destruct (t =? mtid s) eqn:C; [|discriminate B]);
+        apply some_inj in B; subst s'; unfold callback in *; mproj_in CL'; mproj_in CC'.
+      * destruct (incb s); [exact (H3 u)|]. generic H3 s u t Hpc.
+      * assert (Et : t = mtid s) by (apply T3; reflexivity).
+        assert (CLs : c_lane (mcl s) = false) by (unfold mcl; rewrite <- Et, Hpc; reflexivity).
+        rewrite CLs in G. destruct G as [r G]. pose proof (a_incb s r G) as AI. unfold mcl in AI. rewrite <- Et, Hpc in AI.
+        cbn [mclass c_incb] in AI. rewrite AI. exact (H3 u).
+    + exfalso. destruct (mpcs s t) eqn:Hpc; try discriminate B. destruct (syncers s); [|discriminate B].
+      destruct (t =? mtid s) eqn:C; [|discriminate B]. apply Z.eqb_eq in C.
+      apply some_inj in B; subst s'. revert CC'. unfold mcl. mproj. rewrite <- C, upd_same. cbn [mclass c_clean]. discriminate.
+    + exfalso. destruct (mpcs s t) eqn:Hpc; try discriminate B. destruct (t =? mtid s); [discriminate B|].
+      destruct (begin (lane s) t (CWorker floor)) as [l|] eqn:BG; [|discriminate B]. apply some_inj in B; subst s'.
+      assert (CLs : c_lane (mcl s) = false) by exact CL'. rewrite CLs in G. destruct G as [r G].
+      unfold begin in BG. rewrite Hlp, (a_rootq s r G) in BG. discriminate BG.
+  - exact (Inv3_mstep s t s' I I' H3 Hn V B).
+  - (* the override continuation *)
+    intros u.
+    destruct (c_lane (mcl s')) eqn:CL'; [apply PW_lane_phase; assumption|].
+    pose proof I as (T & Y & Vm & G). destruct (T t) as (T1 & T2 & T3 & T4 & T5 & T6).
+    unfold mostep, lane_step in B. destruct (mpcs s t) eqn:Hpc; try discriminate B.
+    + exfalso. unfold ostep in B. destruct (pcs (lane s) t); try discriminate B. discriminate T2.
+    + cbn [lane_ok] in T2.
+      destruct (pcs (lane s) t) eqn:Hlp; try discriminate B. destruct was_empty; [discriminate B|].
+      unfold gstep in B. rewrite Hlp in B. apply some_inj in B. subst s'.
+      assert (Ev : c_view (mcl (set_mpc (set_snap (set_lane s (set_pc (set_lst (lane s) (link_id (lst (lane s)) i)) t Idle)) (link_id (snap s) i)) t (MW_bound (push_qos s qos) false k))) = c_view (mcl s)).
+      { unfold mcl; mproj. destruct (Z.eq_dec t (mtid s)) as [E|E];
+        [ rewrite <- E, ?upd_same, ?Hpc; dmatch; reflexivity | rewrite ?upd_other by congruence; reflexivity ]. }
+      apply (PW_frame s _ u (H3 u)).
+      * mproj; lproj; destruct (Z.eq_dec u t) as [->|N];
+          [ rewrite ?upd_same, ?Hpc, ?Hlp; dmatch; cbn [stage kont]; dmatch; lia | rewrite ?upd_other by exact N; tauto ].
+      * mproj; destruct (Z.eq_dec u t) as [->|N];
+          [ rewrite ?upd_same, ?Hpc; dmatch; try discriminate; tauto | rewrite ?upd_other by exact N; tauto ].
+      * mproj. repeat split.
+      * reflexivity.
+      * intros; mproj; reflexivity.
+      * mproj; lproj; lia.
+      * intros _ _. unfold pset, witem. rewrite Ev. mproj. lproj. unfold ids. rewrite !map_id_link. tauto.
+      * rewrite Ev; tauto.
+      * intros more Hm; mproj. destruct (Z.eq_dec t (mtid s)) as [E|E]; [rewrite <- E, Hpc in Hm; discriminate Hm | rewrite upd_other by congruence; exact Hm].
+  - (* a spurious return from futex_wait *)
+    intros u. unfold mspur in B. destruct (mpcs s t) eqn:Hpc; try discriminate B. apply some_inj in B; subst s'.
+    generic H3 s u t Hpc.
+Qed.
+
+Lemma Inv3_init m prio rb : Inv3 (minit m prio rb).
+Proof. intros t Hs. exfalso. revert Hs. unfold minit. mproj. cbn [stage kont]. lia. Qed.
+
+Lemma NM_init m prio rb : NM (minit m prio rb).
+Proof. unfold NM, minit. mproj. intros []. Qed.
+
+Theorem Inv3_reachable m prio rb s : valid_tid m -> 0 <= rb < 2 -> mreach m prio rb s -> NM s /\ Inv3 s.
+Proof.
+  intros Vm Hrb R. induction R as [s0 ->|s a s' R IH H].
+  - split; [apply NM_init | apply Inv3_init].
+  - destruct IH as [N H4]. pose proof (Inv_reachable m prio rb s Vm Hrb R) as I.
+    split; [exact (NM_step s a s' N H) | exact (Inv3_step s a s' I (mstep_preserves s a s' I H) H4 N H)].
+Qed.
+
+(* what the bound thread's program point says when its view is "about to signal t" / "has popped i" *)
+Lemma view_sig p t : c_view (mclass p) = VSig t -> exists more, p = MB_sig t more.
+Proof.
+  destruct p; cbn; try discriminate;
+    try (match goal with |- context [match ?k with KRet => _ | KWait => _ | KDrain => _ end] => destruct k end; cbn; discriminate).
+  - intros E. injection E as ->. eexists; reflexivity.
+  - destruct tgt; cbn; discriminate.
+Qed.
+Lemma view_item p x : In x (witem (mclass p)) -> exists w more, p = MB_run x w more \/ p = MB_incall x w more.
+Proof.
+  unfold witem. destruct p; cbn; try contradiction;
+    try (match goal with |- context [match ?k with KRet => _ | KWait => _ | KDrain => _ end] => destruct k end; cbn; contradiction).
+  - intros [<-|[]]. eexists _, _. left. reflexivity.
+  - intros [<-|[]]. eexists _, _. right. reflexivity.
+  - destruct tgt; cbn; contradiction.
+Qed.
+
+(* NO LOST WAKE-UP FOR A SYNCHRONOUS CALLER.  A caller of dispatch_sync / dispatch_async_and_wait on the main queue whose
+   context has been pushed and whose wait is not over (stage 3: before the decrement of the thread event, stage 4: after
+   it) is, as long as the bound thread has not signalled it, still owed its run: its context is in the queue's list, in
+   the bound thread's snapshot, popped / running on the bound thread, or has been run and the bound thread is at the
+   signalling store.  And once it is signalled, a caller asleep in futex_wait without a wake-up has the bound thread at
+   the futex_wake for it.  (With C02_mainq_not_stranded and C02_mainq_drain_waits_not_stuck: the bound thread gets there.) *)
+Theorem mainq_sync_wakeup_not_lost m prio rb s t :
+  valid_tid m -> 0 <= rb < 2 -> mreach m prio rb s ->
+  3 <= stage (mpcs s t) (pcs (lane s) t) <= 4 ->
+  let i := w_item (ws s t) in
+  waiter_of s i = t /\
+  (w_sigd (ws s t) = false ->
+     In i (ids (lst (lane s))) \/ In i (ids (snap s)) \/
+     (exists w more, mpcs s (mtid s) = MB_run i w more \/ mpcs s (mtid s) = MB_incall i w more) \/
+     (exists more, mpcs s (mtid s) = MB_sig t more)) /\
+  (w_sigd (ws s t) = true -> mpcs s t = MS_sleep -> w_wok (ws s t) = true \/ exists more, mpcs s (mtid s) = MB_fwake t more).
+Proof.
+  intros Vm Hrb R Hs i. destruct (Inv3_reachable m prio rb s Vm Hrb R) as [_ H4].
+  destruct (H4 t Hs) as ((_ & A & _) & B & C). split; [exact A|]. split.
+  - intros Sg. destruct (B Sg) as [B1 B2]. destruct (w_null (ws s t)) eqn:Nl.
+    + right. right. right. apply view_sig. exact (B2 eq_refl).
+    + specialize (B1 eq_refl). unfold pset in B1. apply in_app_or in B1. destruct B1 as [B1|B1].
+      * right. right. left. exact (view_item _ _ B1).
+      * apply in_app_or in B1. tauto.
+  - intros Sg Sl. destruct (w_wok (ws s t)) eqn:Wk; [left; reflexivity | right; exact (C Sl eq_refl Sg)].
+Qed.
